@@ -1,6 +1,7 @@
 package checks
 
 import (
+	"os"
 	"time"
 
 	"verifharness/internal/core"
@@ -76,8 +77,37 @@ func cdclDesigns(allCert bool) []core.Design {
 		}
 		return res
 	}
+	simp := func(env *core.Env, emitted []core.Case) []core.Case {
+		var res []core.Case
+		for i, e := range emitted {
+			nv := int(e["n"].(float64))
+			var clauses [][]int
+			for _, c := range e["F"].([]any) {
+				clauses = append(clauses, toInts(c))
+			}
+			front := "dimacs"
+			if i%3 == 0 {
+				front = "slicenb"
+			}
+			c := gen.APICase(front, nv, true, gen.ClauseCtors(clauses), false, nil, gen.Cfg(allCert, 0, 0, false, false, true), []gen.M{gen.Op("solve")})
+			c["wbStrict"] = allCert
+			res = append(res, c)
+		}
+		limit := env.Pick(5000, 60000)
+		if v := os.Getenv("VERIF_SIMPLIFY_ALL"); v != "" {
+			limit = len(res)
+		}
+		if len(res) > limit {
+			env.Rand.Shuffle(len(res), func(i, j int) { res[i], res[j] = res[j], res[i] })
+			res = res[:limit]
+		}
+		return res
+	}
 	return []core.Design{
-		{Name: "cdcl", Module: "CDCL", Cfg: "CDCL_quick.cfg", Tier: "quick", Coverage: true, MustCover: actions, ToCases: toCases, Timeout: 10 * time.Minute},
+		{Name: "simplify", Module: "Simplify", Cfg: "Simplify_quick.cfg", Tier: "quick", ToCases: simp, Timeout: 10 * time.Minute, XmxMB: 8000},
+		{Name: "simplify", Module: "Simplify", Cfg: "Simplify_thorough.cfg", Tier: "thorough", ToCases: simp, Timeout: 40 * time.Minute, XmxMB: 16000},
+		{Name: "simplify-prefix", Module: "Simplify", Cfg: "Simplify_prefix.cfg", Workers: 2, XmxMB: 4000, Timeout: 10 * time.Minute, ExpectViolation: "Fixpoint"},
+		{Name: "cdcl", Module: "CDCL", Cfg: "CDCL_quick.cfg", Tier: "quick", ToCases: toCases, Timeout: 10 * time.Minute}, // action coverage is gated in the thorough tier (it doubles the run time)
 		{Name: "cdcl", Module: "CDCL", Cfg: "CDCL_thorough.cfg", Tier: "thorough", Coverage: true, MustCover: actions, ToCases: toCases, Timeout: 40 * time.Minute, XmxMB: 24000},
 		{Name: "cdcl-live", Module: "CDCL", Cfg: "CDCL_live.cfg", Timeout: 5 * time.Minute},
 	}
